@@ -105,6 +105,9 @@ PreGenesis ==
     proposer |-> -1, pkrel |-> {},
     \* the two pos parameters a governance transaction may change in this model
     par |-> [maxVals |-> MaxVals, minStake |-> MinStake], minChanged |-> FALSE,
+    \* pos/StakeDenom changed by governance to a denomination nobody holds (only offered by
+    \* environments without validators, awards or evidence: everything but staking is then unaffected)
+    denomAlt |-> FALSE,
     \* Tendermint: vs[1] signs the next BeginBlock's LastCommitInfo, vs[2] is the set of the
     \* block begun next, vs[3] the one after (where EndBlock's updates land)
     vs |-> << [v \in Users |-> 0], [v \in Users |-> 0], [v \in Users |-> 0] >>,
@@ -213,7 +216,7 @@ HandleStake(s, v, amt) ==
   IN IF rec.status # Unstaked THEN Err(s)                   \* ErrValidatorStatus
      ELSE IF s.sinfo[v].ex /\ s.sinfo[v].tomb /\ "TombstoneRejoin" \notin Dev THEN Err(s)   \* ErrValidatorTombstoned
      ELSE IF amt < s.par.minStake THEN Err(s)                      \* ErrMinimumStake
-     ELSE IF ~HasCoins(s, v, amt) THEN Err(s)                \* ErrNotEnoughCoins
+     ELSE IF ~HasCoins(s, v, amt) \/ s.denomAlt THEN Err(s)  \* ErrNotEnoughCoins (nobody holds the new denomination)
      ELSE LET s1 == IF s.val[v].ex THEN s
                     ELSE [SetVal(s, v, rec) EXCEPT !.pkrel = @ \cup {v}]   \* RegisterValidator
               rec0 == IF "StakeRecordDouble" \in Dev /\ ~s.val[v].ex THEN [rec EXCEPT !.tokens = amt] ELSE rec
@@ -242,13 +245,14 @@ HandleUnjail(s, v) ==
        IN Ok(SetStakedValidator(SetVal(s, v, rec), v, rec))
 
 HandleSend(s, from, to, amt) ==
-  IF ~HasCoins(s, from, amt) THEN Err(s)
+  IF ~HasCoins(s, from, amt) \/ s.denomAlt THEN Err(s)   \* pos sends move the stake denomination
   ELSE Ok([Send(s, from, to, amt) EXCEPT !.donated = IF to = POOL THEN @ + amt ELSE @])
 
 \* x/gov ModifyParam for pos/MaxValidators (to = 1) and pos/StakeMinimum (to = 2), value in amt;
 \* only the ACL owner (ParamOwner) may change a parameter
 HandleSetParam(s, a) ==
   IF a.from # ParamOwner THEN Err(s)
+  ELSE IF a.to = 3 THEN Ok([s EXCEPT !.denomAlt = TRUE])
   ELSE IF a.to = 1 THEN Ok([s EXCEPT !.par = [@ EXCEPT !.maxVals = a.amt]])
   ELSE Ok([s EXCEPT !.par = [@ EXCEPT !.minStake = a.amt], !.minChanged = @ \/ a.amt # s.par.minStake])
 
@@ -281,7 +285,8 @@ RewardFromFees(s) ==
   LET f == s.bal[FEE]
       s1 == Send(s, FEE, POSM, f)
       p == s.proposer
-  IN IF p \in Users /\ s.val[p].ex THEN Send(s1, POSM, p, f) ELSE s1
+  \* the proposer's share is the collected amount OF THE STAKE DENOMINATION (nothing once it was changed)
+  IN IF p \in Users /\ s.val[p].ex /\ ~s.denomAlt THEN Send(s1, POSM, p, f) ELSE s1
 
 \* reward.go mintValidatorAwards (mint to the staked pool, forward to the address)
 MintAwards(s) ==
@@ -518,6 +523,7 @@ TxChoices(s) ==
         \cup (IF "send" \in Kinds THEN {T("send", v, w, x, Fee, "none") : v \in Users, w \in SendTos, x \in Amts} ELSE {})
         \cup (IF "setparam" \in Kinds THEN {T("setparam", v, 1, x, Fee, "none") : v \in Users, x \in ParamVals}
                                             \cup {T("setparam", v, 2, x, Fee, "none") : v \in {ParamOwner}, x \in {MinStake, MinStake + 1}} ELSE {})
+        \cup (IF "setdenom" \in Kinds THEN {T("setparam", v, 3, 0, Fee, "none") : v \in {ParamOwner}} ELSE {})
       badtx ==
         IF ~BadTxOn THEN {}
         ELSE {T("send", v, 1, 1, Fee, b) : v \in Users, b \in {"garbage", "sig", "mut", "replay"}}
